@@ -4,7 +4,7 @@ use crate::adapter::{configs, Config, STD};
 use crate::engine::{Ctx, Input, Line, Rec, Tier, Verdict};
 use crate::gen::sentence::{adversarial_events, malformed_line, payload_field, render_ev, seq_id, token_payload, Ev};
 use crate::outcome::Outcome;
-use crate::props::hist::{self, gate, Gate};
+use crate::props::hist::{gate, Gate};
 use crate::refmodel::build::{self, Cks, Spec};
 use crate::refmodel::nmea::{recognise, Shape};
 use crate::util::esc;
@@ -53,13 +53,6 @@ fn is_trace_free_kind(cfg: &'static dyn Config, extra: &Line, out: &Outcome) -> 
 
 fn check_insert(cfg: &'static dyn Config, lines: &[Line], pos: usize, extra: &Line, rec: &mut Rec) -> Verdict {
     let pos = pos.min(lines.len());
-    if cfg.name() == "none" {
-        let mut all: Vec<Line> = lines.to_vec();
-        all.insert(pos, extra.clone());
-        if hist::exceeds_noalloc_capacity(&all) {
-            return Verdict::Excluded("exceeds the no-allocator capacity (C18 decides those)");
-        }
-    }
     // without / with the extra line
     let without: Vec<&Line> = lines.iter().collect();
     let mut with: Vec<&Line> = lines[..pos].iter().collect();
@@ -235,5 +228,17 @@ pub fn run(ctx: &mut Ctx) {
     for cfg in configs().into_iter().skip(1) {
         ctx.run_proptest("insert-line", cfg, others, insert_inputs(10), check);
     }
+    // no-allocator build: a fragment rejected because the 384-byte buffer is full is a rejected line too
+    let cap = (prop::sample::select(vec![150usize, 190, 200, 300, 383]), prop::sample::select(vec![1usize, 100, 190, 200, 383, 384]), any::<u8>(), prop_oneof![Just(None), (0u32..3).prop_map(Some)], any::<bool>()).prop_map(
+        |(a, b, salt, id, final_too)| {
+            let big = |n: usize, s: usize| -> Vec<u8> { (0..n).map(|j| crate::refmodel::armor::ALPHABET[(j * 3 + s) & 63]).collect() };
+            let mut lines = vec![Line::new(build::line(3, 1, id, b"A", &big(a, salt as usize), 0), false)];
+            lines.push(Line::new(build::line(3, 2, id, b"A", b"22", 0), false));
+            lines.push(Line::new(build::line(3, 3, id, b"A", b"33", 0), false));
+            let extra = Line::new(build::line(3, if final_too { 3 } else { 2 }, id, b"A", &big(b, salt as usize + 7), 0), false);
+            Input::Insert { lines, pos: 1, extra }
+        },
+    );
+    ctx.run_proptest("capacity-insertions", &crate::adapter::NONE, n / 4, cap, check);
     let _ = Ev::Raw(vec![]);
 }
